@@ -6,22 +6,23 @@ from props import codec_common as cc
 THEOREMS = ['C02_frame', 'C02_body_length', 'C02_checksum', 'C02_fields_rendered', 'C02_group_rendered', 'C02_sorted_by_position', 'C02_insertion_order_irrelevant', 'C02_msgtype_third']
 
 
-def gen(rng, sc, n):
+def gen(rng, sc, n, capped=False):
     lines, meta = [], {}
+    gm = cc.gen_message_capped if capped else cc.gen_message
     def add(mt, items, perms):
         for _ in range(perms):
             l, its = cc.spec_line('enc', mt, items, rng, want_items=True)
             lines.append(l)
             meta[l] = (mt, its)
     for i in range(n):
-        mt, items = cc.gen_message(rng, sc, trailer_plain=0.25)
+        mt, items = gm(rng, sc, trailer_plain=0.25)
         add(mt, items, rng.choice((1, 2, 3)))
     for mt, _ in sc['msgs']:
-        mt2, items = cc.gen_message(rng, sc, p_opt=1.0, msgtype=mt, trailer_plain=0.5)
+        mt2, items = gm(rng, sc, p_opt=1.0, msgtype=mt, trailer_plain=0.5)
         add(mt2, items, 2)
     for target in (99, 100, 101, 999, 1000, 1001, 100, 1000):
         for _ in range(40):
-            mt, items = cc.gen_message(rng, sc, p_opt=rng.choice((0.0, 0.2, 0.5)), with_data=False)
+            mt, items = gm(rng, sc, p_opt=rng.choice((0.0, 0.2, 0.5)), with_data=False)
             it2 = cc.pad_to(rng, sc, mt, items, target)
             if it2 is not None:
                 add(mt, it2, 1)
@@ -62,6 +63,12 @@ def run(res, replay=None):
                         'only FIX42UTEST is compiled and dumped']
     res.cov['rule'] = ('schema-driven messages as in C01, each encoded from 1..3 different shuffled insertion orders; every message type with all optional fields; BodyLength at 99/100/101/999/1000/1001; '
                        'oracle = stand-alone wire-format recogniser (frame, BodyLength, CheckSum, tag=value SOH, section order, position order, group shape) and byte equality with the position-ordered rendering; distinct by line')
+    if not replay:
+        gen_facts.generate(['schema_fix44'])
+        sc44 = cc.schema44()
+        rng44 = vlib.rng_for('C02-44', res.seed)
+        l44, m44 = gen(rng44, sc44, 60 if res.tier == 'quick' else 4000, capped=True)
+        res.cov['fix44'] = cc.run_second_schema(res, l44, make_oracle(sc44, m44))
     vlib.decide_stream(res, module='Fix8Model.Props.C02', theorems=THEOREMS, stream='codec', harness_name='codec', lines=lines,
                        oracle=make_oracle(sc, meta), nontrivial=lambda l: l if l.count('=') >= 7 else None,
                        harness_kw=dict(need_schema=True), extra_obligation_problems=errs)
